@@ -51,16 +51,22 @@ func installAtomicStubs(t *StubTable) {
 			t.Native["sync/atomic.Add"+ty] = add
 		}
 	}
-	// runtime hooks used by sync on slow paths never trigger sequentially; a
-	// blocked acquire means a self-deadlock under the sequential model
+	// the runtime semaphores behind WaitGroup.Wait / Mutex.Lock slow paths: a
+	// counter; acquiring blocks (scheduler) until it is positive
 	for _, n := range []string{"sync.runtime_Semacquire", "sync.runtime_SemacquireMutex", "sync.runtime_SemacquireRWMutex", "sync.runtime_SemacquireRWMutexR", "sync.runtime_SemacquireWaitGroup"} {
 		name := n
 		t.Native[name] = func(i *interpreter, caller *frame, fn *ssa.Function, args []value) value {
-			unsupported("%s: would block forever under the sequential goroutine model", name)
+			p := args[0].(*value)
+			i.block(name, func() bool { return (*p).(uint32) > 0 })
+			*p = (*p).(uint32) - 1
 			return nil
 		}
 	}
-	t.Native["sync.runtime_Semrelease"] = func(i *interpreter, caller *frame, fn *ssa.Function, args []value) value { return nil }
+	t.Native["sync.runtime_Semrelease"] = func(i *interpreter, caller *frame, fn *ssa.Function, args []value) value {
+		p := args[0].(*value)
+		*p = (*p).(uint32) + 1
+		return nil
+	}
 	t.Native["sync.runtime_canSpin"] = func(i *interpreter, caller *frame, fn *ssa.Function, args []value) value { return false }
 	t.Native["sync.runtime_nanotime"] = func(i *interpreter, caller *frame, fn *ssa.Function, args []value) value { return int64(0) }
 	t.Native["sync.throw"] = func(i *interpreter, caller *frame, fn *ssa.Function, args []value) value {
